@@ -12,11 +12,19 @@
    (4) the capacity clause is proved on the ring (Cs104/MqCapacity.v, theorems C06_capacity_equal_sizes and C06_capacity_step): for every ring size n, every ASDU
        size z and every history in which all enqueued ASDUs have z octets, an enqueue displaces an entry only if at least n
        entries are in the ring afterwards (and then exactly one, the oldest).
-   PARTIAL: the server model's trace theorems assume the log stays below capacity (D = 0); the composition of server
-   model and ring into one trace theorem is not proved. *)
+   (5) COMPOSITION of the scheduler with the ring (Cs104/SchedMq.v, theorems C06_sched_mq_ below): the four places where the server
+       touches the event queue - sendNextLowPriorityASDU, the release loop of checkSequenceNumber, CS104_Slave_enqueueASDU, the
+       re-arming when a connection ends - transcribed with the literal ring (and the (id, offset) pairs the k-buffer entries
+       remember) ARE the list versions of Cs104/Server.v for every ring state that represents the list (Rq): no fault, same frames,
+       same connection, the ring represents the list version's queue; an enqueue first displaces the D oldest entries.  With the
+       high-priority ring of C13: sendWaitingASDUs on both rings = send_waiting of the server model (C06_sched_mq_send_waiting).
+       The ring-backed functions are run against the real static functions on a real connection on every run (`sch` scripts).
+   PARTIAL: the pieces are composed per operation; one trace theorem over whole server histories with the ring in place (the
+   model's step function re-stated with rings, displacement included) is not stated. *)
 From Coq Require Import ZArith List Bool.
-From L60870 Require Import Cs104.Server Cs104.EventLogProofs Cs104.MsgQueue Cs104.MqRingProofs Cs104.QueueRefine Cs104.MqCapacity.
-Import ListNotations.
+From RecordUpdate Require Import RecordSet.
+From L60870 Require Import Cs104.Server Cs104.EventLogProofs Cs104.MsgQueue Cs104.MqRingProofs Cs104.QueueRefine Cs104.MqCapacity Cs104.SchedProofs Cs104.HpRingProofs Cs104.SchedRing Cs104.SchedMq.
+Import ListNotations RecordSetNotations.
 Local Open Scope Z_scope.
 
 (* what is handed out for transmission is the OLDEST waiting entry; exactly it becomes "sent" *)
@@ -138,3 +146,44 @@ Example C06_capacity_example :
   | MsgQueue.Ok (q, _) => cnt q = 2 /\ map (fun p => e_id (snd p)) (match mq_entries q with MsgQueue.Ok l => l | MsgQueue.Fault _ => [] end) = [3; 4]
   | MsgQueue.Fault _ => False end.
 Proof. exact cap_example. Qed.
+
+(* ---- scheduler x event ring (Cs104/SchedMq.v).  Rq q t kb ql: the ring q represents the list ql (MQInv + absq), every (id, offset)
+   pair in t is valid for q (live at that offset, or older than everything in the ring), and every event entry of the k-buffer kb has
+   its pair in t. *)
+Theorem C06_sched_mq_send_event : forall g now s c q t, Rq q t (kbuf c) (mq s) ->
+  exists c' q' t' o, ev_send_r g now c q t = MsgQueue.Ok (c', q', t', o) /\
+    exists s', ev_send g now s c = (s', c', o) /\ Rq q' t' (kbuf c') (mq s') /\ nid q' = nid q.
+Proof. exact ev_send_ring. Qed.
+
+(* the tail of send_waiting in Server.v is ev_send *)
+Theorem C06_sched_mq_split : forall g now s c,
+  send_waiting g now s c =
+  let '(c1, go, o1) := send_hp (S (length (hp c))) g now c in
+  if go then let '(s', c2, o2) := ev_send g now s c1 in (s', c2, o1 ++ o2) else (s, c1, o1).
+Proof. exact send_waiting_split. Qed.
+
+(* acknowledgement: releasing the n oldest k-buffer entries confirms their events in the ring exactly as in the list *)
+Theorem C06_sched_mq_release : forall n kb q t ql, Rq q t kb ql -> nid q < TWO64 ->
+  exists kb' q', release_r n kb t q = MsgQueue.Ok (kb', q') /\ Rq q' t kb' (snd (release n kb ql)) /\ fst (release n kb ql) = kb' /\ nid q' = nid q.
+Proof. exact release_ring. Qed.
+
+(* enqueue: the D oldest entries are displaced (D = 0 while there is room), then the new entry is appended with the next id *)
+Theorem C06_sched_mq_enqueue : forall q t kb ql a, Rq q t kb ql -> lenz a <= 250 ->
+  exists q' D, mq_enqueue q a = MsgQueue.Ok q' /\ (D <= length ql)%nat /\
+    Rq q' t kb (skipn D ql ++ [{| q_id := nid q; q_asdu := a; q_st := Server.QWAIT |}]) /\ nid q' = nid q + 1.
+Proof. exact enqueue_ring. Qed.
+
+(* a connection ends: what was sent and not confirmed waits again *)
+Theorem C06_sched_mq_connection_end : forall q t kb ql, Rq q t kb ql ->
+  exists q', mq_reset_waiting q = MsgQueue.Ok q' /\ Rq q' t [] (Server.mq_reset_waiting ql) /\ nid q' = nid q.
+Proof. exact reset_ring. Qed.
+
+(* sendWaitingASDUs on BOTH rings is send_waiting of the server model *)
+Theorem C06_sched_mq_send_waiting : forall g now s c hq L q t, HPInv hq L -> Rq q t (kbuf c) (mq s) ->
+  exists c' hq' q' t' o, send_waiting_rr g now c hq q t = MsgQueue.Ok (c', hq', q', t', o) /\
+    let '(sm, cm, om) := send_waiting g now s (c <| hp := L |>) in
+    c' <| hp := hp cm |> = cm /\ o = om /\ HPInv hq' (hp cm) /\ Rq q' t' (kbuf cm) (mq sm) /\ nid q' = nid q.
+Proof. exact send_waiting_rings. Qed.
+
+Example C06_sched_mq_example : exm_run = Some ([exm_ev 1; exm_ev 2; exm_ev 3], [QSENT; QSENT], [QWAIT; QWAIT]) /\ Rq (mq_new 1) [] (kbuf exm_c) [].
+Proof. exact sched_mq_example. Qed.
